@@ -826,3 +826,121 @@ def paths_reaching(body, target, symbol_of_call, start=0, max_states=20000):
                 continue
             break
     return out
+
+
+# --------------------------------------------------------------------------
+# constant evaluation of a small body (the storage primitives, for concrete sizes / offsets / capacities)
+
+def const_eval_outcome(body_d, params, consts, ty_sizes, max_steps=600):
+    """Follows the one path that integer constants decide through a body (dict form): `params` maps parameter
+    locals to integers, `consts` named constants (`CAP`), `ty_sizes` = (size_of::<T>(), align_of::<T>()).
+    Returns ('return' | 'panic' | 'unknown', where): 'panic' only when every decision on the way was made by
+    known values; an assertion or switch on an unknown value gives 'unknown' (switch) or is assumed to pass
+    (assertion: rustc's own pointer / overflow checks on values we do not track)."""
+    M = (1 << 64) - 1
+    env = dict(params)
+    blocks = body_d['blocks']
+
+    def operand(op):
+        if not isinstance(op, dict):
+            return None
+        if 'const' in op:
+            c = op['const']
+            if c.get('int') is not None:
+                return c['int']
+            if c.get('dbg') in consts:
+                return consts[c['dbg']]
+            return None
+        pl = op.get('copy') or op.get('move')
+        if pl is None:
+            return None
+        v = env.get(pl['l'])
+        for e in pl['p']:
+            if isinstance(e, dict) and 'f' in e and isinstance(v, tuple) and e['f'] < len(v):
+                v = v[e['f']]
+            else:
+                return None
+        return v if not isinstance(v, tuple) or not pl['p'] else v
+    bb = 0
+    for _ in range(max_steps):
+        blk = blocks[bb]
+        for st in blk['stmts']:
+            if st['k'] != 'assign':
+                continue
+            pl, rv = st['place'], st['rv']
+            val = None
+            k = rv['k']
+            if k == 'use':
+                val = operand(rv['op'])
+            elif k == 'cast' and rv.get('ck') in ('IntToInt',):
+                val = operand(rv['op'])
+            elif k == 'un':
+                o = operand(rv['o'])
+                if isinstance(o, int):
+                    if rv['op'] == 'Not':
+                        val = (1 - o) if (st['place'].get('ty') == 'bool') else (~o) & M
+                    elif rv['op'] == 'Neg':
+                        val = (-o) & M
+            elif k == 'bin':
+                a, c = operand(rv['l']), operand(rv['r'])
+                if isinstance(a, int) and isinstance(c, int):
+                    op = rv['op']
+                    base = op.replace('WithOverflow', '').replace('Unchecked', '')
+                    r = None
+                    if base == 'Add': r = a + c
+                    elif base == 'Sub': r = a - c
+                    elif base == 'Mul': r = a * c
+                    elif base == 'Div' and c: r = a // c
+                    elif base == 'Rem' and c: r = a % c
+                    elif base == 'BitAnd': r = a & c
+                    elif base == 'BitOr': r = a | c
+                    elif base == 'BitXor': r = a ^ c
+                    elif base == 'Shl' and c < 64: r = a << c
+                    elif base == 'Shr' and c < 64: r = a >> c
+                    elif base in ('Lt', 'Le', 'Gt', 'Ge', 'Eq', 'Ne'):
+                        r = int({'Lt': a < c, 'Le': a <= c, 'Gt': a > c, 'Ge': a >= c, 'Eq': a == c, 'Ne': a != c}[base])
+                    if r is not None:
+                        if op.endswith('WithOverflow'):
+                            val = (r & M, int(r < 0 or r > M))
+                        else:
+                            val = r & M if base not in ('Lt', 'Le', 'Gt', 'Ge', 'Eq', 'Ne') else r
+            if pl['p']:
+                env.pop(pl['l'], None)
+            elif val is None:
+                env.pop(pl['l'], None)
+            else:
+                env[pl['l']] = val
+        t = blk['term']
+        k = t['k']
+        if k == 'goto':
+            bb = t['t']
+        elif k == 'return':
+            return ('return', None)
+        elif k == 'switch':
+            v = operand(t['d'])
+            if not isinstance(v, int):
+                return ('unknown', fmt_span(t.get('span')))
+            bb = dict((a, c) for a, c in t['targets']).get(v, t['otherwise'])
+        elif k == 'assert':
+            v = operand(t['cond'])
+            if isinstance(v, int) and bool(v) != bool(t['expected']):
+                return ('panic', '%s (%s)' % (fmt_span(t.get('span')), (t.get('msg') or '')[:60]))
+            bb = t['t']
+        elif k == 'drop':
+            bb = t['t']
+        elif k == 'call':
+            cp = ((t.get('callee') or {}).get('resolved') or {}).get('path') or (t.get('callee') or {}).get('path') or ''
+            if t['t'] is None:
+                if cp.startswith('core::panicking::') or cp.startswith('std::rt::begin_panic') or cp.startswith('core::panic'):
+                    return ('panic', fmt_span(t.get('span')))
+                return ('unknown', fmt_span(t.get('span')))
+            d = t['dest']
+            if not d['p']:
+                if cp in ('core::mem::size_of', 'core::mem::align_of') and ty_sizes is not None and [a.get('ty') for a in (t['callee'].get('args') or [])] == ['T']:
+                    env[d['l']] = ty_sizes[0] if cp.endswith('size_of') else ty_sizes[1]
+                else:
+                    env.pop(d['l'], None)
+            bb = t['t']
+        else:
+            return ('unknown', k)
+    return ('unknown', 'step limit')
